@@ -222,30 +222,35 @@ theorem VInv.acquire {s : St} (v : VInv s) (t c k : Nat) (ht : ∀ c' k' eid, s.
         · intro heq; subst heq; exact ht c' k' eid ht'
       · exact ⟨t, c, k, by rw [setPc_pc, if_pos rfl]⟩
 
-theorem VInv.save {s : St} (v : VInv s) (cfg : Cfg) (t c k eid val sz : Nat) (ht : s.pc t = .loading c k eid) :
-    VInv (save cfg s t c k eid val sz).1 := by
-  obtain ⟨e, he, hc, hk, hst⟩ := v.loading_own t c k eid ht
-  unfold SV.Cache.save
-  rw [he]
-  simp only
-  have hget : ∀ i a, (s.heap.set eid { e with val := val, size := (if e.deleted then 0 else cfg.entrySize + sz), st := .valid })[i]? = some a →
-      (i = eid ∧ a = { e with val := val, size := (if e.deleted then 0 else cfg.entrySize + sz), st := .valid }) ∨ (i ≠ eid ∧ s.heap[i]? = some a) := by
-    intro i a h
-    rw [List.getElem?_set] at h
-    split at h
-    · split at h
-      · cases h; exact Or.inl ⟨by omega, rfl⟩
-      · cases h
-    · exact Or.inr ⟨by omega, h⟩
+/-- the heap after a `set` at the index a loading thread owns -/
+theorem get_set_cases {h : List Entry} {eid i : Nat} {e1 a : Entry} (h1 : (h.set eid e1)[i]? = some a) :
+    (i = eid ∧ a = e1) ∨ (i ≠ eid ∧ h[i]? = some a) := by
+  rw [List.getElem?_set] at h1
+  split at h1
+  · split at h1
+    · cases h1; exact Or.inl ⟨by omega, rfl⟩
+    · cases h1
+  · exact Or.inr ⟨by omega, h1⟩
+
+/-- replacing the entry a loader owns by `e1` (same identity, no longer `loading`, not abandoned-in-map) and
+setting the loader idle keeps `VInv`, provided a valid `e1` carries a produced value -/
+theorem VInv.finish_set {s : St} (v : VInv s) {t c k eid : Nat} (ht : s.pc t = .loading c k eid) {e e1 : Entry}
+    (he : s.heap[eid]? = some e) (hc : e1.cache = e.cache) (hk : e1.key = e.key) (hst : e1.st ≠ .loading)
+    (hab : e1.inMap = true → e1.st ≠ .abandoned) (gs : List Int) (prod : List (Nat × Nat × Nat))
+    (hsub : ∀ x ∈ s.produced, x ∈ prod) (hval : e1.st = .valid → (e1.cache, e1.key, e1.val) ∈ prod) :
+    VInv (setPc { s with heap := s.heap.set eid e1, gsizeL := gs, produced := prod } t .idle) := by
+  obtain ⟨e0, he0, hc0, hk0, -⟩ := v.loading_own t c k eid ht
+  rw [he] at he0; cases he0
   have hother : ∀ t' c' k' eid', t' ≠ t → s.pc t' = .loading c' k' eid' → eid' ≠ eid := by
     intro t' c' k' eid' hne h heq
     subst heq
     exact hne (v.loading_inj t' t c' k' c k _ h ht)
+  have hlen : eid < s.heap.length := (List.getElem?_eq_some_iff.mp he).1
   constructor
   · intro i a h hv
-    rcases hget i a h with ⟨-, rfl⟩ | ⟨-, h⟩
-    · simp [setPc, hc, hk]
-    · simp only [setPc]; exact List.mem_cons_of_mem _ (v.valid_produced i a h hv)
+    rcases get_set_cases h with ⟨-, rfl⟩ | ⟨-, h⟩
+    · exact hval hv
+    · exact hsub _ (v.valid_produced i a h hv)
   · intro t' c' k' eid' hw
     rw [setPc_pc] at hw
     split at hw
@@ -253,7 +258,7 @@ theorem VInv.save {s : St} (v : VInv s) (cfg : Cfg) (t c k eid val sz : Nat) (ht
     · obtain ⟨a, h1, h2⟩ := v.waiting_key t' c' k' eid' hw
       by_cases hee : eid' = eid
       · subst hee; rw [he] at h1; cases h1
-        exact ⟨_, List.getElem?_set_self (List.getElem?_eq_some_iff.mp he).1, h2⟩
+        exact ⟨e1, List.getElem?_set_self hlen, hc.trans h2.1, hk.trans h2.2⟩
       · exact ⟨a, (List.getElem?_set_ne (Ne.symm hee)).trans h1, h2⟩
   · intro t' c' k' eid' hw
     rw [setPc_pc] at hw
@@ -271,94 +276,39 @@ theorem VInv.save {s : St} (v : VInv s) (cfg : Cfg) (t c k eid val sz : Nat) (ht
       · cases h2
       · exact v.loading_inj t1 t2 c1 k1 c2 k2 eid' h1 h2
   · intro i a h hin
-    rcases hget i a h with ⟨-, rfl⟩ | ⟨-, h⟩
-    · simp
+    rcases get_set_cases h with ⟨-, rfl⟩ | ⟨-, h⟩
+    · exact hab hin
     · exact v.no_abandoned i a h hin
   · intro i a h hl
-    rcases hget i a h with ⟨-, rfl⟩ | ⟨hne, h⟩
-    · cases hl
+    rcases get_set_cases h with ⟨-, rfl⟩ | ⟨hne, h⟩
+    · exact absurd hl hst
     · obtain ⟨t', c', k', ht'⟩ := v.loading_owner i a h hl
       refine ⟨t', c', k', ?_⟩
       rw [setPc_pc, if_neg]
       · exact ht'
       · intro heq; subst heq; rw [ht] at ht'; cases ht'; exact hne rfl
 
-theorem sim_unmap (h : List Entry) (c k : Nat) : Sim h (unmap h c k) := by
-  unfold unmap
-  apply sim_map
-  intro e; split <;> simp
-
-theorem unmap_get {h : List Entry} {c k i : Nat} {e : Entry} (hi : h[i]? = some e) :
-    (unmap h c k)[i]? = some (if e.cache = c ∧ e.key = k then { e with inMap := false } else e) := by
-  simp [unmap, List.getElem?_map, hi]
+theorem VInv.save {s : St} (v : VInv s) (cfg : Cfg) (t c k eid val sz : Nat) (ht : s.pc t = .loading c k eid) :
+    VInv (save cfg s t c k eid val sz).1 := by
+  obtain ⟨e, he, hc, hk, hst⟩ := v.loading_own t c k eid ht
+  unfold SV.Cache.save
+  rw [he]
+  simp only
+  split
+  · exact v.finish_set ht he (e1 := { e with val := val, size := 0, st := .valid }) rfl rfl (by simp) (by simp)
+      s.gsizeL ((c, k, val) :: s.produced) (fun x hx => List.mem_cons_of_mem _ hx) (fun _ => by simp [hc, hk])
+  · exact v.finish_set ht he (e1 := { e with val := val, size := cfg.entrySize + sz, st := .valid, gen := s.cur c })
+      rfl rfl (by simp) (by simp) _ ((c, k, val) :: s.produced) (fun x hx => List.mem_cons_of_mem _ hx)
+      (fun _ => by simp [hc, hk])
 
 theorem VInv.recover {s : St} (v : VInv s) (t c k eid : Nat) (ht : s.pc t = .loading c k eid) :
     VInv (recover s t c k eid) := by
   obtain ⟨e, he, hc, hk, hst⟩ := v.loading_own t c k eid ht
-  have hu : (unmap s.heap c k)[eid]? = some { e with inMap := false } := by
-    rw [unmap_get he]; simp [hc, hk]
   unfold SV.Cache.recover
-  rw [hu]
+  rw [he]
   simp only
-  -- first the unmap, as a simulation
-  have v1 : VInv { s with heap := unmap s.heap c k } := v.of_sim (sim_unmap _ _ _) rfl rfl
-  have hget : ∀ i a, ((unmap s.heap c k).set eid { e with inMap := false, st := .abandoned })[i]? = some a →
-      (i = eid ∧ a = { e with inMap := false, st := .abandoned }) ∨ (i ≠ eid ∧ (unmap s.heap c k)[i]? = some a) := by
-    intro i a h
-    rw [List.getElem?_set] at h
-    split at h
-    · split at h
-      · cases h; exact Or.inl ⟨by omega, rfl⟩
-      · cases h
-    · exact Or.inr ⟨by omega, h⟩
-  have hother : ∀ t' c' k' eid', t' ≠ t → s.pc t' = .loading c' k' eid' → eid' ≠ eid := by
-    intro t' c' k' eid' hne h heq
-    subst heq
-    exact hne (v.loading_inj t' t c' k' c k _ h ht)
-  have hlen : eid < (unmap s.heap c k).length := (List.getElem?_eq_some_iff.mp hu).1
-  constructor
-  · intro i a h hv
-    rcases hget i a h with ⟨-, rfl⟩ | ⟨-, h⟩
-    · cases hv
-    · exact v1.valid_produced i a h hv
-  · intro t' c' k' eid' hw
-    rw [setPc_pc] at hw
-    split at hw
-    · cases hw
-    · obtain ⟨a, h1, h2⟩ := v1.waiting_key t' c' k' eid' hw
-      by_cases hee : eid' = eid
-      · subst hee; rw [hu] at h1; cases h1
-        exact ⟨_, List.getElem?_set_self hlen, h2⟩
-      · exact ⟨a, (List.getElem?_set_ne (Ne.symm hee)).trans h1, h2⟩
-  · intro t' c' k' eid' hw
-    rw [setPc_pc] at hw
-    split at hw
-    · cases hw
-    · rename_i hne
-      obtain ⟨a, h1, h2⟩ := v1.loading_own t' c' k' eid' hw
-      have hee := hother t' c' k' eid' hne hw
-      exact ⟨a, (List.getElem?_set_ne (Ne.symm hee)).trans h1, h2⟩
-  · intro t1 t2 c1 k1 c2 k2 eid' h1 h2
-    rw [setPc_pc] at h1 h2
-    split at h1
-    · cases h1
-    · split at h2
-      · cases h2
-      · exact v.loading_inj t1 t2 c1 k1 c2 k2 eid' h1 h2
-  · intro i a h hin
-    rcases hget i a h with ⟨-, rfl⟩ | ⟨-, h⟩
-    · simp at hin
-    · exact v1.no_abandoned i a h hin
-  · intro i a h hl
-    rcases hget i a h with ⟨-, rfl⟩ | ⟨hne, h⟩
-    · cases hl
-    · obtain ⟨t', c', k', ht'⟩ := v1.loading_owner i a h hl
-      refine ⟨t', c', k', ?_⟩
-      rw [setPc_pc, if_neg]
-      · exact ht'
-      · intro heq; subst heq
-        have : s.pc t' = .loading c' k' i := ht'
-        rw [ht] at this; cases this; exact hne rfl
+  exact v.finish_set ht he (e1 := { e with st := .abandoned, inMap := false }) rfl rfl (by simp) (by simp)
+    s.gsizeL s.produced (fun x hx => hx) (fun h => by cases h)
 
 theorem sim_release (s : St) (c : Nat) : Sim s.heap (release s c).heap := by
   unfold release
